@@ -284,7 +284,7 @@ def main():
         "engines": [{"name": "vharness", "path": "/verif/harness", "serves_properties": sorted(P), "kind_free_text":
                      "Rust co-simulation harness: instrumented Hal (ledger), MMIO bus via safe-mmio custom-mmio, model/real transports, reference virtqueue device and device personalities, per-property monitors; run natively (overflow-checked release), under ASan, Miri and valgrind by ./check"}],
         "checks": checks,
-        "notes": "Technique family: runtime monitoring and sanitizers only. Verdicts are three-valued (exit 0 held / 1 VIOLATION / 3 INCONCLUSIVE). Known findings: /verif/known_findings.jsonl. Seeded mutants: /verif/seeded/.",
+        "notes": "Technique family: runtime monitoring and sanitizers only. Verdicts are three-valued (exit 0 held / 1 VIOLATION / 3 INCONCLUSIVE). Known findings: /verif/known_findings.jsonl (16 fixed, 1 known). Genuine defects repaired in /repo by unguarded 'fix:' commits: " + ", ".join(FIX_COMMITS) + ". Seeded changes and the check-vs-change matrix: /verif/seeded/ (MATRIX.md), DESIGN.md section 12.",
         "not_applicable": [{"property_id": k, "reason": v} for k, v in sorted(NOT_YET.items())],
     }
     json.dump(plan, open(os.path.join(ROOT, "plan.json"), "w"), indent=1)
